@@ -101,7 +101,7 @@ func expect(sc *scenario) (want string, signer int) {
 			return "fail", 0
 		}
 		return base, sc.Signer // no extended provider signature covers it
-	case "ep-id", "ep-addr", "ep-md", "ep-swap-sigs":
+	case "ep-id", "ep-addr", "ep-md", "ep-swap-sigs", "ep-clear-md", "ep-clear-addrs", "ep-copy-md", "ep-copy-addrs":
 		return "fail", 0
 	case "ep-attach":
 		// entries attached after signing: every entry is checked whatever the other fields
@@ -375,6 +375,16 @@ func (r *run) rtCase(before, after *schema.Advertisement, sc *scenario) {
 }
 
 func whyFail(sc *scenario) string {
+	switch sc.Mut.Kind {
+	case "ep-clear-md", "ep-clear-addrs", "ep-copy-md", "ep-copy-addrs":
+		which := "an extended provider's entry"
+		if sc.Mut.Ep >= 0 && sc.Mut.Ep < len(sc.Eps) && sc.Eps[sc.Mut.Ep].Named == sc.Provider {
+			which = "the main provider's entry"
+		}
+		what := map[string]string{"ep-clear-md": "metadata cleared", "ep-clear-addrs": "addresses cleared",
+			"ep-copy-md": "metadata replaced by the advertisement's own", "ep-copy-addrs": "addresses replaced by the advertisement's own"}[sc.Mut.Kind]
+		return which + " had its " + what + " after signing"
+	}
 	if sc.Mut.Kind == "ep-attach" {
 		how := []string{"unsigned", "genuinely signed", "one sealed by a foreign key", "genuinely signed, the main provider's left out"}[sc.Mut.Index%4]
 		what := "advertisement"
@@ -502,6 +512,11 @@ func scenarioSig(sc *scenario) string {
 			if e.Sealer == sc.Signer {
 				seal = "adsigner"
 			}
+		}
+		if e.LikeAd {
+			role += "=ad"
+		} else if e.MdLen == 0 || e.NAddrs == 0 {
+			role += fmt.Sprintf("(a%d,m%d)", e.NAddrs, e.MdLen)
 		}
 		eps = append(eps, role+":"+seal)
 	}
